@@ -112,15 +112,28 @@ Definition ftrunc (x : float) : option Z :=
       Some (if s then (- v)%Z else v)
   | _ => None
   end.
-(* StateEvolution.execute: nsteps = int((final_time - start_time) / self.solver.dt) *)
-Definition nsteps (t0 T dt : float) : option Z := ftrunc (PrimFloat.div (PrimFloat.sub T t0) dt).
+(* python round(x) for a float: nearest integer, ties to even; None for nan / inf *)
+Definition fround (x : float) : option Z :=
+  match Prim2SF x with
+  | S754_zero _ => Some 0%Z
+  | S754_finite s m e =>
+      let v :=
+        if (0 <=? e)%Z then Z.shiftl (Zpos m) e
+        else
+          let sh := (- e)%Z in
+          let q := Z.shiftr (Zpos m) sh in
+          let r := (Zpos m - Z.shiftl q sh)%Z in
+          let half := Z.shiftl 1 (sh - 1) in
+          if (half <? r)%Z || ((half =? r)%Z && Z.odd q) then (q + 1)%Z else q in
+      Some (if s then (- v)%Z else v)
+  | _ => None
+  end.
+(* StateEvolution.execute: nsteps = int(round((final_time - start_time) / self.solver.dt)) *)
+Definition nsteps (t0 T dt : float) : option Z := fround (PrimFloat.div (PrimFloat.sub T t0) dt).
+(* HISTORICAL (before the repair): nsteps = int((final_time - start_time) / self.solver.dt) *)
+Definition nsteps_prefix (t0 T dt : float) : option Z := ftrunc (PrimFloat.div (PrimFloat.sub T t0) dt).
 (* the binary64 value of the decimal literal  x * 10^-k  (correctly rounded quotient of two exact integers) *)
 Definition dec (k : nat) (x : Z) : float := PrimFloat.div (fz x) (fz (10 ^ Z.of_nat k)).
-(* proposed repair: round to nearest *)
-Definition fround (x : float) : option Z :=
-  match ftrunc (PrimFloat.add x (if PrimFloat.ltb x 0%float then (-0.5)%float else 0.5%float)) with
-  | Some v => Some v | None => None end.
-Definition nsteps_fixed (t0 T dt : float) : option Z := fround (PrimFloat.div (PrimFloat.sub T t0) dt).
 
 (* the loop: range(nsteps) is empty for nsteps <= 0 *)
 Definition evolve {S} (step : S -> S) (n : Z) (s : S) : S := Nat.iter (Z.to_nat n) step s.
@@ -160,15 +173,15 @@ Section RK.
   Definition rinv (a b c d e f : nat) : R :=
     rpow (u2 K) a * (rpow (u3 K) b * (rpow (u5 K) c * (rpow (u11 K) d * (rpow (u13 K) e * rpow (u19 K) f)))).
 
-  (* solvers.RungeKutta4.__call__ for a constant Hamiltonian H *)
-  Definition rk4_step (H dt psi : R) : R :=
+  (* HISTORICAL (before the repair): the stages were evaluated with H s instead of -i H s *)
+  Definition rk4_step_prefix (H dt psi : R) : R :=
     let k1 := H * psi in
     let k2 := H * (psi + dt * k1 * u2 K) in
     let k3 := H * (psi + dt * k2 * u2 K) in
     let k4 := H * (psi + dt * k3) in
     psi - ri K * dt * (k1 + rz 2 * k2 + rz 2 * k3 + k4) * rinv 1 1 0 0 0 0.
-  (* the repair: the right-hand side of Schroedinger's equation is -i H psi *)
-  Definition rk4_step_fixed (H dt psi : R) : R :=
+  (* solvers.RungeKutta4.__call__ for a constant Hamiltonian H: stages k = -i H (...) *)
+  Definition rk4_step (H dt psi : R) : R :=
     let f := fun s => ropp K (ri K) * (H * s) in
     let k1 := f psi in
     let k2 := f (psi + dt * k1 * u2 K) in
@@ -202,9 +215,9 @@ Section RK.
     let '(k1, k2, k3, k4, k5, k6) := ks in
     rz 16 * k1 * rinv 0 3 1 0 0 0 + rz 6656 * k3 * rinv 0 3 2 0 0 1 + rz 28561 * k4 * rinv 1 3 1 1 0 1
     - rz 9 * k5 * rinv 1 0 2 0 0 0 + rz 2 * k6 * rinv 0 0 1 1 0 0.
-  Definition rk45_step (H dt psi : R) : R :=
+  Definition rk45_step_prefix (H dt psi : R) : R :=
     psi - ri K * dt * rk45_weights (rk45_stages (fun s => H * s) dt psi).
-  Definition rk45_step_fixed (H dt psi : R) : R :=
+  Definition rk45_step (H dt psi : R) : R :=
     psi + dt * rk45_weights (rk45_stages (fun s => ropp K (ri K) * (H * s)) dt psi).
 End RK.
 
